@@ -171,8 +171,37 @@ func TestPropEveryCut(t *testing.T) {
 		large := rapid.IntRange(0, 5).Draw(rt, "large") == 0
 		c.Recs = genRecs(rt, format, large)
 		c.L = genLayout(rt, format)
+		longRec := rapid.IntRange(0, 24).Draw(rt, "long_record") == 0
+		if longRec {
+			// one record far larger than any internal buffer (bufio 4 KiB, scanner 64 KiB): a 70-200 KB sequence
+			// and, for FASTA/FASTQ, a title of several KB
+			i := rapid.IntRange(0, len(c.Recs)-1).Draw(rt, "long_index")
+			n := rapid.IntRange(70000, 200000).Draw(rt, "long_len")
+			unit := genSeqText(rt, "long_unit", 97, false)
+			if format == "genbank" || format == "embl" {
+				unit = strings.Map(func(r rune) rune {
+					if strings.ContainsRune(".-[]", r) {
+						return 'n'
+					}
+					return r
+				}, unit)
+			}
+			c.Recs[i].Seq = strings.Repeat(unit, n/97+1)[:n]
+			if format == "fastq" {
+				c.Recs[i].Qual = make([]int, n)
+				for j := range c.Recs[i].Qual {
+					c.Recs[i].Qual[j] = (j*7 + 3) % 94
+				}
+			}
+			if format == "fasta" || format == "fastq" {
+				c.Recs[i].Def = fmt.Sprintf(`{"count":%d,"k":"%s"} tail`, i, strings.Repeat("v>@+", rapid.IntRange(1000, 3000).Draw(rt, "long_title")))
+			}
+		}
 		c.WithFeatures = rapid.Bool().Draw(rt, "withfeatures")
 		c.Kind = rapid.SampledFrom(readerKinds).Draw(rt, "reader")
+		if longRec && c.Kind == "onebyte" {
+			c.Kind = "half"
+		}
 		if c.Kind == "sched" {
 			c.Sched = rapid.SliceOfN(rapid.IntRange(1, 40), 1, 6).Draw(rt, "sched")
 		}
@@ -190,7 +219,9 @@ func TestPropEveryCut(t *testing.T) {
 				set[rapid.IntRange(2, len(data)).Draw(rt, "bufsize")] = true
 			}
 			for b := range set {
-				if b >= 2 {
+				// the splitter re-scans the whole accumulated buffer after every extension read: with a
+				// record of n bytes and a buffer of b the work is n*n/b - tiny buffers are only for small files
+				if b >= 2 && (!longRec || b >= 2048) {
 					c.Bufs = append(c.Bufs, b)
 				}
 			}
@@ -199,6 +230,9 @@ func TestPropEveryCut(t *testing.T) {
 		st, err := checkChunks(c, true)
 		cl := layoutClasses(c.Recs, c.L)
 		cl = append(cl, "reader:"+c.Kind)
+		if longRec {
+			cl = append(cl, "record_longer_than_64KiB")
+		}
 		if large {
 			cl = append(cl, "sampled_cuts")
 		} else {
